@@ -2,11 +2,12 @@ SPECIFICATION Spec
 CONSTANTS
   Labs = {"a", "b"}
   MaxT = 6
-  MaxOps = 8
+  MaxOps = 7
   Cuts = {TRUE}
   ExDts = {0, 2}
   Acts = {"Scrape", "Exemplar", "Meta", "Delete", "Evict", "Truncate", "Restart"}
   Script <- ScriptReuse
+  PreCuts = {0, 3}
   MetaOrds = {"asc", "desc"}
   EmitMode = "class"
 VIEW View
